@@ -155,7 +155,9 @@ def stepTraj (tr : Traj) (st : TrajRun) (q : String × String) : TrajRun :=
       | .error _ => st
       | .ok (_, ms) =>
         match atoks with
-        | [rc, m, _] => if rc = "0" ∧ m = toString ms then st else { st with err := some s!"stats duration: model {ms} impl {ans}" }
+        | [rc, m, _, same] =>
+          if rc = "0" ∧ m = toString ms ∧ same = "=" then st
+          else { st with err := some s!"stats duration: model {ms} (whatever else is requested with it) impl {ans}" }
         | _ => { st with err := some "bad S answer" }
     else if k = 's' ∨ k = 'e' then
       let t : QTime := if k = 's' then .fin 0 else .pinf
